@@ -35,7 +35,7 @@ def gen_valid(rng, thorough):
 
 
 def gen_case(rng):
-    transport = rng.choice(["udp", "tcp"])
+    transport = rng.choice(["udp", "tcp", "udpbw", "tcpbw"])
     lines = ["cfg " + transport]
     toks = [7, 8, 9]
     t = 1000
@@ -43,6 +43,8 @@ def gen_case(rng):
     regs = {}     # tok -> (id, state) as the generator believes; only used to steer, not to judge
     tagn = [0]
     kinds = set()
+    if transport.endswith("bw"):
+        kinds.add("blockwise-notifications")
 
     def tag():
         tagn[0] += 1
@@ -123,6 +125,10 @@ def dl(line):
     detail below the model (it decides which exit of NewObservation a later `regabort` takes: waiting for the first
     response, or the write itself failing because the ACK never came)"""
     f = line.split()
+    if f[0] == "cfg" and f[1].endswith("bw"):
+        # block-wise transfer enabled and notifications of live observations delivered in two blocks (RFC 7959 2.6): below
+        # the model - the application must see the same single notification
+        return "cfg " + f[1][:-2]
     return "reg " + f[1] if f[0] == "reg" and len(f) == 3 else line
 
 
